@@ -147,13 +147,15 @@ impl<'a> RecursivePageTable<'a> {
                     return Err(MapToError::FrameAllocationFailed);
                 }
             } else {
+                // Don't touch the flags of a huge page mapping: the entry is a leaf, not a
+                // parent table, and the call is going to fail.
+                if entry.flags().contains(Flags::HUGE_PAGE) {
+                    return Err(MapToError::ParentEntryHugePage);
+                }
                 if !insert_flags.is_empty() && !entry.flags().contains(insert_flags) {
                     entry.set_flags(entry.flags() | insert_flags);
                 }
                 created = false;
-            }
-            if entry.flags().contains(Flags::HUGE_PAGE) {
-                return Err(MapToError::ParentEntryHugePage);
             }
 
             let page_table_ptr = next_table_page.start_address().as_mut_ptr();
